@@ -168,6 +168,11 @@ struct Ctx
 	uint64_t handlers = 0;
 	bool nontrivial = false;
 	bool verbose = false;
+	// engines that enumerate many executions inside one run (C04/C12) pin the exact
+	// sub-execution that failed: the replay then consists of that one execution
+	bool has_pinned = false;
+	Plan pinned;
+	uint64_t sub_runs = 0; // executions performed inside this run
 
 	// only the first violation of a run is kept: it is the run's class
 	void fail(std::string const& cls, std::string const& det)
@@ -218,6 +223,10 @@ struct Engine
 	virtual std::vector<std::string> stub_components() const = 0;
 	virtual std::vector<std::string> assumptions(std::string const&) const { return {}; }
 };
+
+// set by the worker: called with the pinned plan before every sub-execution, so that a crash
+// is attributed to exactly that sub-execution
+extern void (*g_note_plan)(Plan const&);
 
 void register_engine(Engine* e);
 std::vector<Engine*>& engines();
